@@ -11,9 +11,6 @@ mod c07;
 mod c09;
 mod c11;
 mod c12;
-mod codecs;
-mod interp;
-mod oracle;
 
 fn main() {
     let checks: Vec<&dyn monitors::driver::Check> = vec![&c01::C01, &c03::C03, &c04::C04, &c07::C07, &c09::C09, &c11::C11, &c12::C12];
